@@ -225,6 +225,53 @@ pub fn run() {
 		let n = b.len();
 		(0..n).filter(move |c| !quick || c % 7 == 0 || c % 512 < 24 || c % 512 > 488).map(move |cut| (b.clone(), label.clone(), cut))
 	});
+	// a long game: its frames.arrow stays above a megabyte even compressed, so anything that treats large
+	// members differently (streaming instead of buffering, size caps) is reached; cuts every 64 bytes through the
+	// last 128 KiB of the archive (the end of the record batch and the Arrow footer), every 4,096 before
+	let mut long_cuts: Vec<(Arc<Vec<u8>>, String, usize)> = vec![];
+	{
+		let mut a = base_replay((3, 16), vec![pc(1, false)], 10_000);
+		a.metadata = None;
+		// frame payloads of deterministic noise (every bit pattern is legal in frame data), so that compression
+		// cannot shrink the member below the sizes at which implementations start to treat it differently
+		let mut doc = record(&a).doc;
+		let mut x: u64 = 0x9E37_79B9_7F4A_7C15;
+		for ev in doc.events.iter_mut() {
+			let from = match ev.code {
+				0x37 | 0x38 => 6,
+				0x3A | 0x3C => 4,
+				_ => continue,
+			};
+			for b in ev.payload[from..].iter_mut() {
+				x ^= x << 13;
+				x ^= x >> 7;
+				x ^= x << 17;
+				*b = (x >> 32) as u8;
+			}
+		}
+		let bytes = doc.assemble();
+		let mut sizes = vec![];
+		for comp in [1u8, 2] {
+			let g = read_slp(&bytes, false, false).unwrap_or_else(|f| machinery(&format!("C07 long base does not read: {}", f.describe())));
+			let arch = Arc::new(write_slpp(g, comp).unwrap_or_else(|f| machinery(&format!("C07 long base does not convert: {}", f.describe()))));
+			sizes.push(arch.len());
+			let n = arch.len();
+			let tail = n.saturating_sub(128 << 10);
+			let mut cut = 0usize;
+			while cut < n {
+				long_cuts.push((arch.clone(), format!("10,000-frame game comp={}", comp), cut));
+				cut += if cut >= tail { 64 } else { 4096 };
+			}
+		}
+		cx.note("long_archive_bytes", json!(sizes));
+	}
+	par_each(long_cuts.into_iter(), |(bytes, label, cut), local| {
+		for skip in [false, true] {
+			let mut p = P { skip, class: "slpp-long", ..Default::default() };
+			p.n[0] = cut as i64;
+			eval_case("trunc_slpp", o_trunc_slpp, &bytes, &p, || format!("{} cut at {}", label, cut), local);
+		}
+	});
 	par_each(it, |(bytes, label, cut), local| {
 		for skip in [false, true] {
 			let mut p = P { skip, class: "slpp", ..Default::default() };
